@@ -45,6 +45,7 @@ import (
 	"google.golang.org/grpc/codes"
 	"google.golang.org/grpc/credentials/insecure"
 	"google.golang.org/grpc/grpclog"
+	"google.golang.org/grpc/metadata"
 	"google.golang.org/grpc/status"
 	"google.golang.org/grpc/test/bufconn"
 	"google.golang.org/protobuf/proto"
@@ -143,6 +144,8 @@ type caseSpec struct {
 	Outcome   outcomeSpec `json:"outcome"`
 	Pos       string      `json:"pos"` // before | between | after
 	BadResp   bool        `json:"bad_resp"`
+	MD        bool        `json:"md,omitempty"`  // handler also sets header and trailer metadata
+	Cut       *cutSpec    `json:"cut,omitempty"` // replay the recorded reply of this case cut short (see cut.go)
 }
 
 func (c caseSpec) String() string {
@@ -277,6 +280,10 @@ func unaryHandler(ctx context.Context, dec func(interface{}) error) (resp interf
 		return nil, err
 	}
 	rs.recvd++
+	if rs.spec.MD {
+		grpc.SetHeader(ctx, metadata.Pairs("c02-h", "hv"))
+		grpc.SetTrailer(ctx, metadata.Pairs("c02-t", "tv1", "c02-t", "tv2"))
+	}
 	if rs.pre > 0 {
 		return rs.respMsg(0), rs.err
 	}
@@ -305,6 +312,10 @@ func streamHandler(clientStreams bool) common.StreamFn {
 			if !clientStreams {
 				break
 			}
+		}
+		if rs.spec.MD {
+			ss.SetHeader(metadata.Pairs("c02-h", "hv"))
+			ss.SetTrailer(metadata.Pairs("c02-t", "tv1", "c02-t", "tv2")) // one key: the trailer frame's bytes are deterministic
 		}
 		for i := 0; i < rs.pre; i++ {
 			m := rs.respMsg(i)
@@ -726,8 +737,11 @@ const hangGuard = 30 * time.Second
 
 // runCase runs one case on the real code. It never returns on a hang (exit 2).
 func runCase(t *transports, c caseSpec) (*runState, observation) {
+	return runCaseOn(t.get(c.Transport), c, true)
+}
+
+func runCaseOn(cc grpc.ClientConnInterface, c caseSpec, withHandler bool) (*runState, observation) {
 	rs := newRunState(c)
-	cc := t.get(c.Transport)
 	cur.Store(rs)
 	ch := make(chan observation, 1)
 	go func() { ch <- drive(cc, c.Kind) }()
@@ -739,7 +753,7 @@ func runCase(t *transports, c caseSpec) (*runState, observation) {
 	case <-timer.C:
 		inconclusive("hang guard: client did not finish within %v on case %s", hangGuard, c)
 	}
-	if p, _ := rs.handlerPanic.Load().(string); p != "" {
+	if p, _ := rs.handlerPanic.Load().(string); p != "" || !withHandler {
 		return rs, obs
 	}
 	select {
@@ -769,6 +783,20 @@ func main() {
 		var c caseSpec
 		if err := common.LoadReplay(p, &c); err != nil {
 			inconclusive("replay file: %v", err)
+		}
+		if c.Cut != nil {
+			cut := *c.Cut
+			c.Cut = nil
+			rec := record(c)
+			obs := runCut(rec, cut)
+			v := judgeCut(rec, cut, obs)
+			fmt.Printf("replay: recorded reply of %s: http %d, %d body bytes, handler returned %s after %d response(s)\n  cut: %d bytes arrive, ending %s [%s]\n  client observed: %s\n  verdict: %q %s\n",
+				c, rec.code, len(rec.body), errStr(rec.ret), len(rec.sent), cut.Off, cut.Ending, cutClass(rec, cut), obs, v.Clause, v.FP)
+			if v.Clause != "" {
+				fmt.Printf("VIOLATION property=C02 replay=%s\n", p)
+				os.Exit(1)
+			}
+			os.Exit(0)
 		}
 		rs, obs := runCase(t, c)
 		v := judge(rs, obs)
@@ -827,6 +855,39 @@ func main() {
 		}
 	}
 
+	// cut-short replies (HTTP): every proper prefix of recorded genuine replies, clean and abrupt, plus lost replies
+	cutEvals := 0
+	cutClasses := map[string]int{}
+	for _, base := range cutScenarios() {
+		rec := record(base)
+		// the replay harness must reproduce the genuine exchange when nothing is cut
+		if whole := runCut(rec, cutSpec{Off: len(rec.body), Ending: "clean"}); whole.String() != rec.full.String() {
+			t.close()
+			inconclusive("cut: replaying the complete recorded reply of %s differs from the genuine exchange (checker error)\n  genuine: %s\n  replay:  %s", base, rec.full, whole)
+		}
+		for _, cut := range allCuts(rec) {
+			obs := runCut(rec, cut)
+			evals++
+			cutEvals++
+			cc := cutClass(rec, cut)
+			cutClasses[kindClass(base.Kind)+"|"+cc]++
+			distinct[fmt.Sprintf("cut|%s|%d|%s", base, cut.Off, cut.Ending)] = true
+			v := judgeCut(rec, cut, obs)
+			sk := "cut|" + base.Kind + "|" + cc
+			if !sampleWanted[sk] && sampleN["cut"] < 10 && base.Outcome.Class == "status" && cut.Ending != "abrupt" {
+				sampleWanted[sk] = true
+				sampleN["cut"]++
+				samples = append(samples, map[string]interface{}{"case": base.String(), "cut": cut, "cut_class": cc, "client": obs.String(), "verdict": v.Clause})
+			}
+			if v.Clause != "" {
+				clauseCount[v.FP]++
+				cc := base
+				cc.Cut = &cutSpec{Off: cut.Off, Ending: cut.Ending}
+				rep.Violation(v.FP, v.What, cc)
+			}
+		}
+	}
+
 	// thorough: the wire model (Response.Write / ReadResponse) against a real loopback net/http server
 	loop := 0
 	if thorough {
@@ -858,7 +919,10 @@ func main() {
 		"evaluations":         evals,
 		"distinct_nontrivial": len(distinct),
 		"rule": "total enumeration of transport {inproc, http (recorder), httpwire (recorder + net/http wire writer/parser)} x kind {unary, cstream, sstream, bidi half-duplex} x outcome {nil, plain, context.Canceled, context.DeadlineExceeded, io.EOF, 2 wrapped statuses, status: 19 codes (0..17, 99) x 7 messages x 13 ordered detail lists of length 0..2} x position {before, [between,] after} x last response encodable/not (only where a response precedes the return). " +
-			"A case is non-trivial when the handler really returned a non-nil error or handed over an unencodable response, i.e. the error/trailer path of the transport ran; distinct by (transport, kind, outcome, responses handed over, encodable).",
+			"A case is non-trivial when the handler really returned a non-nil error or handed over an unencodable response, i.e. the error/trailer path of the transport ran; distinct by (transport, kind, outcome, responses handed over, encodable). " +
+			"Cut dimension (HTTP client): for 19 recorded genuine replies (unary ok/error; sstream and bidi with 0..2 responses, cstream; handler ok / NotFound with 2 details; header and trailer metadata) every proper prefix of the reply body x {clean io.EOF, io.ErrUnexpectedEOF} plus RoundTrip error before/after the request; every such case is non-trivial (it runs the client's truncation handling), distinct by (scenario, offset, ending).",
+		"cut_cases":              cutEvals,
+		"cut_classes":            cutClasses,
 		"per_transport":          perTransport,
 		"samples":                samples,
 		"exhaustive":             true,
@@ -873,5 +937,6 @@ func main() {
 		"HTTP runs on common.HandlerRT (handler on a recorder, response complete when RoundTrip returns); the httpwire flavour additionally serialises the response with http.Response.Write and parses it with http.ReadResponse, validated in the thorough tier against a real loopback net/http server",
 		"handlers follow the generated-code convention of returning the error of a failed SendMsg/RecvMsg",
 		"for a status whose message is not valid UTF-8 on an encoding transport only 'non-OK' is demanded",
+		"cut replies: no cut is exempted. A unary OK reply carries Content-Length, so a real transport reports a short body itself; the canned body reader models that by ending with io.ErrUnexpectedEOF whenever fewer than Content-Length bytes arrive (only a unary reply without Content-Length cut inside the protobuf body would be undetectable at the HTTP layer, and the server never produces one). For a non-200 reply the status comes from the headers and the body text is irrelevant: the client must still report non-OK.",
 	}))
 }
